@@ -77,6 +77,7 @@ type World struct {
 	flushSizeBefore       int64
 	sawLowerPrioOverwrite map[string]bool
 	pendingGetRefs        int
+	heldVals              []heldVal
 	faults0               int
 	FaultOps              []string // labels of the calls during which an injected fault fired
 	NeedReopen            bool     // a failed FlushRevert: contents unspecified until re-opened
@@ -163,6 +164,9 @@ func (rc *RefCounter) die(i *gkvlite.Item) {
 		i.Key[k] = 0xfe
 	}
 	if i.Val != nil {
+		for k := range i.Val { // a pool reuses the buffer: whoever still holds the slice sees it change
+			i.Val[k] = 0xfe
+		}
 		i.Val = []byte("\xfe<released item>\xfe")
 	}
 	i.Priority = -12345
@@ -630,6 +634,25 @@ func (w *World) Get(name string, key []byte) {
 	// cannot be released by the caller: C15 accounts for it separately.
 	if w.RC != nil && v != nil {
 		w.pendingGetRefs++
+		// ... and the caller may keep the value for as long as it likes
+		w.heldVals = append(w.heldVals, heldVal{label, v, append([]byte{}, v...)})
+	}
+}
+
+type heldVal struct {
+	label string
+	got   []byte // the slice Get returned
+	want  []byte // its contents at that time
+}
+
+// CheckHeldVals: values returned by Get under the counting callbacks must
+// stay intact (the reference Get took for the caller is never released).
+func (w *World) CheckHeldVals() {
+	for _, h := range w.heldVals {
+		if !bytes.Equal(h.got, h.want) {
+			w.Fail("refcount", "get-value-released", "the value returned by %s (%s) has since been released and overwritten: now %s", h.label, vstr(h.want), vstr(h.got))
+			return
+		}
 	}
 }
 
